@@ -150,6 +150,9 @@ func (c06Engine) Gen(job *Job) *Case {
 		c.Entry = "mem"
 	}
 	n := r.Range(3, 5)
+	if job.Tier == "thorough" && r.Chance(1, 3) {
+		n = r.Range(5, 8)
+	}
 	c.Reps = append(c.Reps, Rep{})
 	fresh := false
 	for i := 1; i < n; i++ {
@@ -177,6 +180,10 @@ func (c06Engine) Gen(job *Job) *Case {
 			e.Fresh = true
 			e.MapMode, e.MapSites = 0, nil
 			fresh = true
+		}
+		if !fresh && i == 1 && r.Chance(1, 7) {
+			// one repetition concurrently with other builds, canonical map order
+			e = Env{Ambient: e.Ambient, Conc: r.Range(1, 2), ConcSeed: r.U64()}
 		}
 		c.Reps = append(c.Reps, Rep{Env: e})
 	}
@@ -253,6 +260,58 @@ func observe(c *Case, e Env, seed uint64) (text string, permuted []string) {
 	return sb.String(), permuted
 }
 
+// observeConc: the observed build and serialisation run as one task of the seeded scheduler
+// while e.Conc other tasks build and serialise unrelated projects ("concurrently with other
+// builds"). Pools are isolating, so the dependency's pool-escape finding (C18) stays out.
+func observeConc(c *Case, e Env, seed uint64) (string, string) {
+	canonicalEnv()
+	simrt.SetOSHook(nil)
+	applyEnv(Env{MapMode: e.MapMode, MapSeed: e.MapSeed, MapSites: e.MapSites, Ambient: e.Ambient, Pool: simrt.PoolIsolating})
+	pr := NewRand(seed ^ 0xc0c0)
+	var others []*Project
+	for i := 0; i < e.Conc; i++ {
+		q := genValid(pr.Fork())
+		if pr.Chance(1, 3) {
+			q = genMultiDefect(pr.Fork())
+		}
+		must(MaterialiseAt(fmt.Sprintf("conc%d", i), q.Files))
+		others = append(others, q)
+	}
+	var text string
+	fns := []func(){func() {
+		var sb strings.Builder
+		o := buildCase(c)
+		sb.WriteString("build: " + o.Text() + "\n")
+		if o.OK {
+			for _, op := range []string{"ToJson", "ToOpenAPIJson", "Title"} {
+				sb.WriteString(op + ": " + call(o.japi, op).Text() + "\n")
+			}
+		}
+		text = sb.String()
+	}}
+	for i := range others {
+		i := i
+		fns = append(fns, func() {
+			if o := BuildPath(filepath.Join(fmt.Sprintf("conc%d", i), others[i].Root)); o.OK {
+				call(o.japi, "ToJson")
+				call(o.japi, "ToOpenAPIJson")
+			}
+		})
+	}
+	raceDelta()
+	rep := simrt.Run(simrt.Config{Seed: e.ConcSeed, Strategy: int(e.ConcSeed % simrt.NumStrategies), SwitchDen: 8, ChangePoints: 3, Horizon: 2000, Pool: simrt.PoolConfig{Policy: simrt.PoolIsolating}}, fns...)
+	foreign := ""
+	if rep.Deadlock != "" {
+		foreign = "C18:deadlock"
+		text = "DEADLOCK"
+	}
+	if rd := raceDelta(); rd != "" {
+		foreign = "C18:data-race"
+	}
+	canonicalEnv()
+	return text, foreign
+}
+
 func (c06Engine) Exec(c *Case, job *Job) *Result {
 	res := &Result{}
 	must(Materialise(c.Project.Files))
@@ -308,6 +367,20 @@ func (c06Engine) Exec(c *Case, job *Job) *Result {
 			res.NonTrivial = true
 			keyParts = append(keyParts, "fresh")
 			must(Materialise(c.Project.Files)) // the child used its own directory; ours is untouched, but keep the invariant explicit
+		} else if rep.Env.Conc > 0 {
+			var foreign string
+			text, foreign = observeConc(c, rep.Env, c.Seed+uint64(i+1))
+			res.count("env:concurrent-with-other-builds", 1)
+			res.NonTrivial = true
+			keyParts = append(keyParts, "conc")
+			if foreign != "" {
+				res.Foreign = append(res.Foreign, foreign)
+				if text == "DEADLOCK" {
+					res.Verdict = "violation"
+					res.Class, res.Sig, res.Msg = "deadlock", "deadlock", "deadlock while building concurrently with other builds"
+					break
+				}
+			}
 		} else {
 			text, perm = observe(c, rep.Env, c.Seed+uint64(i+1))
 		}
@@ -340,6 +413,8 @@ func (c06Engine) Exec(c *Case, job *Job) *Result {
 		if text != ref {
 			what := "map-order"
 			switch {
+			case rep.Env.Conc > 0:
+				what = "concurrent-builds"
 			case rep.Env.Fresh:
 				what = "fresh-process"
 			case rep.Env.MapMode == 0 && rep.Env.Prior > 0:
@@ -347,7 +422,7 @@ func (c06Engine) Exec(c *Case, job *Job) *Result {
 			case rep.Env.MapMode == 0:
 				what = "pool-or-ambient"
 			}
-			if rep.Env.Prior > 0 && !rep.Env.Fresh && rep.Env.MapMode != 0 {
+			if rep.Env.Prior > 0 && !rep.Env.Fresh && rep.Env.MapMode != 0 && rep.Env.Conc == 0 {
 				// is the prior history alone responsible? same environment without the prior builds
 				e2 := rep.Env
 				e2.Prior = 0
@@ -363,7 +438,7 @@ func (c06Engine) Exec(c *Case, job *Job) *Result {
 			}
 			sig := comp + " under " + what
 			known := false
-			if rep.Env.MapMode != 0 && !rep.Env.Fresh {
+			if rep.Env.MapMode != 0 && !rep.Env.Fresh && rep.Env.Conc == 0 {
 				// Attribution: which single map site, permuted alone, makes the observation differ?
 				culprits, knownOnly, residual := c06Culprits(c, rep.Env, c.Seed+uint64(i+1), ref, perm)
 				sig += " culprits=[" + strings.Join(culprits, ",") + "]"
